@@ -38,13 +38,66 @@ let answer total (fmt : 'a -> string) (r : 'a rres) : string =
 
 let hexnum x = hex_of_n x
 
+(* value trees of harness/drv_mpsave.cpp *)
+let ikind_of = function
+  | "u8" -> IU8 | "u16" -> IU16 | "u32" -> IU32 | "u64" -> IU64
+  | "s8" -> IS8 | "s16" -> IS16 | "s32" -> IS32 | "s64" -> IS64 | _ -> failwith "ikind"
+
+let parse_tree (t : string) : tv =
+  let p = ref 0 in
+  let token () =
+    let q = ref !p in
+    while !q < String.length t && not (List.mem t.[!q] [';'; ']'; '}'; '=']) do incr q done;
+    let r = String.sub t !p (!q - !p) in p := !q; r in
+  let rec go () : tv =
+    let c = t.[!p] in incr p;
+    match c with
+    | 'n' -> TNil0
+    | 'T' -> TBool0 true
+    | 'F' -> TBool0 false
+    | 'i' ->
+      let tok = token () in
+      let i = String.index tok ':' in
+      TInt (ikind_of (String.sub tok 0 i), z_of_shex (String.sub tok (i + 1) (String.length tok - i - 1)))
+    | 'f' -> TF32 (n_of_hex (token ()))
+    | 'd' -> TF64 (n_of_hex (token ()))
+    | 's' -> TStr0 (parse_hexbytes (token ()))
+    | 'b' -> TBytes (parse_hexbytes (token ()))
+    | '[' ->
+      if t.[!p] = ']' then (incr p; TArr0 []) else begin
+        let acc = ref [] in
+        let fin = ref false in
+        while not !fin do
+          acc := go () :: !acc;
+          (match t.[!p] with ';' -> incr p | ']' -> incr p; fin := true | _ -> failwith "bad array")
+        done;
+        TArr0 (List.rev !acc) end
+    | '{' ->
+      if t.[!p] = '}' then (incr p; TObj []) else begin
+        let acc = ref [] in
+        let fin = ref false in
+        while not !fin do
+          let k = go () in
+          if t.[!p] <> '=' then failwith "bad object"; incr p;
+          let v = go () in
+          acc := (k, v) :: !acc;
+          (match t.[!p] with ';' -> incr p | '}' -> incr p; fin := true | _ -> failwith "bad object")
+        done;
+        TObj (List.rev !acc) end
+    | _ -> failwith "bad tree" in
+  go ()
+
 let () =
   try
     while true do
       let line = input_line stdin in
       let t = Array.of_list (split_on ' ' line) in
       (try
-        if t.(0) = "w" then begin
+        if t.(0) = "sv" then begin
+          (match save (parse_tree t.(2)) with
+           | Some b -> print_endline (fmt_hexbytes b)
+           | None -> print_endline "ERR R")
+        end else if t.(0) = "w" then begin
           let out : n list option =
             match t.(2) with
             | "nil" -> Some wr_nil
